@@ -301,6 +301,8 @@ def _work_chunk(pid, batch_seed, indices, tier, want_digests, per_run_timeout, m
         "extra": Counter(), "outcomes": Counter(), "raw_violations": Counter(), "unminimised": Counter(),
     }
     min_per_cls = Counter()
+    unknown_seen = Counter()
+    known = load_known(engine.PID)
     max_min_per_cls = getattr(engine, "MIN_PER_CLS", 3)
     for i in indices:
         faulthandler.dump_traceback_later(per_run_timeout, exit=True)
@@ -331,11 +333,19 @@ def _work_chunk(pid, batch_seed, indices, tier, want_digests, per_run_timeout, m
                                    "ops": trace["ops"][:12], "ops_total": len(trace["ops"])})
         v = res.get("violation")
         if v:
-            out["raw_violations"][v.get("cls", "?")] += 1
-            if min_per_cls[v.get("cls", "?")] >= max_min_per_cls:
-                out["unminimised"][v.get("cls", "?")] += 1
+            cls = v.get("cls", "?")
+            out["raw_violations"][cls] += 1
+            # a signature that does not depend on the minimal trace (engine.presignature) classifies the run at once
+            pre = engine.presignature(trace, v) if hasattr(engine, "presignature") else None
+            if pre is not None and pre in known and pre in out["violations"]:
+                out["violations"][pre]["count"] += 1
                 continue
-            min_per_cls[v.get("cls", "?")] += 1
+            # minimisation is capped per class only once an UNKNOWN signature of that class exists in this chunk
+            # (the batch fails anyway); while everything seen is a listed known finding, every violation is minimised
+            if min_per_cls[cls] >= max_min_per_cls and unknown_seen[cls]:
+                out["unminimised"][cls] += 1
+                continue
+            min_per_cls[cls] += 1
             faulthandler.dump_traceback_later(per_run_timeout * 20 + 120, exit=True)
             try:
                 mt, mv = minimise(engine, trace, v,
@@ -345,6 +355,8 @@ def _work_chunk(pid, batch_seed, indices, tier, want_digests, per_run_timeout, m
                 faulthandler.cancel_dump_traceback_later()
             sig = engine.signature(mt, mv)
             mt["signature"] = sig
+            if sig not in known:
+                unknown_seen[cls] = True
             cur = out["violations"].get(sig)
             if cur is None:
                 if len(out["violations"]) < max_violations:
